@@ -9,6 +9,7 @@ import (
 
 	"ocivet/internal/core"
 	"ocivet/internal/facts"
+	"ocivet/internal/load"
 )
 
 func init() {
@@ -418,6 +419,51 @@ func regexpSubmatchIndex(c *core.Ctx, x, idx ssa.Value, at ssa.Instruction) (boo
 // truncationImpliesNonEmpty: items[len(items)-1] under `truncated`, where truncated is
 // only set under len(items) >= N && N > 0 and items only grows.
 func truncationImpliesNonEmpty(ia *ssa.IndexAddr, at ssa.Instruction) (bool, string) {
+	// the page and its flag handed back by a private helper: `items, truncated, err := collect(…)`
+	if ex, ok := facts.Resolve(ia.X).(*ssa.Extract); ok {
+		call, isCall := ex.Tuple.(*ssa.Call)
+		if !isCall {
+			return false, "indexed slice is not a captured variable"
+		}
+		h := call.Call.StaticCallee()
+		if h == nil || h.Blocks == nil || !load.InModule(h) {
+			return false, "indexed slice is the result of a call outside the module"
+		}
+		fi := -1
+		for _, cd := range facts.CondsAt(at.Block()) {
+			if fx, ok := facts.Resolve(cd.V).(*ssa.Extract); ok && cd.Pos && fx.Tuple == ex.Tuple && fx.Type().String() == "bool" {
+				fi = fx.Index
+			}
+		}
+		if fi < 0 {
+			return false, "index is not dominated by the truncation flag returned with the page"
+		}
+		n := 0
+		for _, r := range returnsOf(h) {
+			fv := facts.RetVal(r, fi)
+			if cst, ok := fv.(*ssa.Const); ok && cst.Value != nil && cst.Value.ExactString() == "false" {
+				continue
+			}
+			fu, ok1 := fv.(*ssa.UnOp)
+			iu, ok2 := facts.RetVal(r, ex.Index).(*ssa.UnOp)
+			if !ok1 || !ok2 {
+				return false, "the helper returns a page or a flag that is not one of its variables"
+			}
+			fa, ok1 := fu.X.(*ssa.Alloc)
+			ia2, ok2 := iu.X.(*ssa.Alloc)
+			if !ok1 || !ok2 {
+				return false, "the helper returns a page or a flag that is not one of its variables"
+			}
+			n++
+			if ok, why := truncationCellsOK(ia2, fa, r); !ok {
+				return false, why
+			}
+		}
+		if n == 0 {
+			return false, "the helper never returns a set flag"
+		}
+		return true, "the helper sets truncated only under len(items) >= n > 0 and items only grows, so a truncated page is non-empty"
+	}
 	itemsLoad, ok := ia.X.(*ssa.UnOp)
 	if !ok {
 		return false, "indexed slice is not a captured variable"
@@ -438,9 +484,23 @@ func truncationImpliesNonEmpty(ia *ssa.IndexAddr, at ssa.Instruction) (bool, str
 	if flag == nil {
 		return false, "index is not dominated by a boolean truncation flag"
 	}
+	return truncationCellsOK(items, flag, at)
+}
+
+// truncationCellsOK: flag is set only under len(items) >= N && N > 0, and items
+// only grows (any other assignment cannot reach `at`).
+func truncationCellsOK(items, flag *ssa.Alloc, at ssa.Instruction) (bool, string) {
 	// every store of a non-false value to the flag is dominated by len(items) >= N and N > 0
+	selfStore := func(st *ssa.Store, cell *ssa.Alloc) bool {
+		// `return items, truncated, nil` with heap-allocated named results is compiled to x = x
+		u, ok := st.Val.(*ssa.UnOp)
+		return ok && u.Op == token.MUL && u.X == ssa.Value(cell)
+	}
 	for _, st := range facts.StoresTo(flag) {
 		if cst, ok := st.Val.(*ssa.Const); ok && cst.Value != nil && cst.Value.ExactString() == "false" {
+			continue
+		}
+		if selfStore(st, flag) {
 			continue
 		}
 		lenGE, posN := false, false
@@ -449,6 +509,22 @@ func truncationImpliesNonEmpty(ia *ssa.IndexAddr, at ssa.Instruction) (bool, str
 			x, op, y, ok := facts.Cmp(cd)
 			if !ok {
 				continue
+			}
+			if _, xIsCall := x.(*ssa.Call); !xIsCall {
+				if _, yIsCall := y.(*ssa.Call); yIsCall {
+					// n <= len(items)  ==  len(items) >= n
+					x, y = y, x
+					switch op {
+					case token.LEQ:
+						op = token.GEQ
+					case token.LSS:
+						op = token.GTR
+					case token.GEQ:
+						op = token.LEQ
+					case token.GTR:
+						op = token.LSS
+					}
+				}
 			}
 			if lc, isCall := x.(*ssa.Call); isCall && op == token.GEQ {
 				if bi, isB := lc.Call.Value.(*ssa.Builtin); isB && bi.Name() == "len" {
@@ -473,6 +549,9 @@ func truncationImpliesNonEmpty(ia *ssa.IndexAddr, at ssa.Instruction) (bool, str
 	}
 	// items only grows: every store is append(load of items, ...)
 	for _, st := range facts.StoresTo(items) {
+		if selfStore(st, items) {
+			continue
+		}
 		grows := false
 		if call, ok := st.Val.(*ssa.Call); ok {
 			if bi, ok := call.Call.Value.(*ssa.Builtin); ok && bi.Name() == "append" {
